@@ -390,6 +390,21 @@ class OpsMixin:
             b = self.int_range_bits(v)
             if b is not None:
                 return SymFloat(ival=v)
+            if isinstance(v, SymInt) and self.must(self.cmp("LtE", v, 2 ** 64)) and self.must(self.cmp("GtE", v, -(2 ** 64))):
+                # float(int) beyond 2**53, exactly: round to nearest, ties to even, on 53 significant bits - the result
+                # is again an integer, expressed in integer arithmetic (one case per binade)
+                a = z3.If(v.t < 0, -v.t, v.t)
+                res = a
+                for k in range(63, 52, -1):
+                    u = 2 ** (k - 52)
+                    q = a / u
+                    r = a % u
+                    up = z3.Or(r > u // 2, z3.And(r == u // 2, q % 2 == 1))
+                    res = z3.If(a >= 2 ** k, (q + z3.If(up, 1, 0)) * u, res) if k == 63 else \
+                        z3.If(z3.And(a >= 2 ** k, a < 2 ** (k + 1)), (q + z3.If(up, 1, 0)) * u, res)
+                res = z3.If(a >= 2 ** 64, a, res)
+                rv = self.define_var("f_of_int", z3.If(v.t < 0, -res, res), -(2 ** 64), 2 ** 64)
+                return SymFloat(ival=rv)
             return SymFloat(quot=(v, 1))      # float(int) is correctly rounded
         return v
 
